@@ -374,3 +374,374 @@ def decode_case(c):
     s = top(sidx)
     val, i = dec_val(s, c, i)
     return {"sidx": sidx, "shape": s, "lens": lens, "val": val, "extra": c[i:]}
+
+
+# ---- reference semantics used by the predicate (from the property text, not from the Coq model) ------------------
+def req_flags(mods):
+    return (int(any(m == "S" and b for m, b in mods)), int(any(m == "M" and b for m, b in mods)))
+
+
+def metas_ref(s, v):
+    """keys in declaration order; flags = exactly what the leaf's validation requires; absent optional = read-only
+    meta of the program id"""
+    k = s[0]
+    if k == "leaf":
+        sg, wr = req_flags(s[1])
+        return [(v[1], sg, wr)]
+    if k in ("prog", "sysv"):
+        return [(s[1] if v[1] is None else v[1], 0, 0)]
+    if k == "opt":
+        return [(PROG, 0, 0)] if v[1] is None else metas_ref(s[1], v[1])
+    if k == "box":
+        return metas_ref(s[1], v)
+    if k in ("vec", "rest"):
+        return [m for x in v[1] for m in metas_ref(s[1], x)]
+    if k == "arr":
+        return [m for x in v[1] for m in metas_ref(s[2], x)]
+    return [m for f, x in zip(s[2], v[1]) for m in metas_ref(f, x)]
+
+
+def tree_ref(s, v):
+    """the decoded account set, as the harness prints it"""
+    k = s[0]
+    if k in ("leaf", "prog", "sysv"):
+        return [x for m in metas_ref(s, v) for x in m]
+    if k == "opt":
+        return [0] if v[1] is None else [1] + tree_ref(s[1], v[1])
+    if k == "box":
+        return tree_ref(s[1], v)
+    if k in ("vec", "rest"):
+        return [len(v[1])] + [x for e in v[1] for x in tree_ref(s[1], e)]
+    if k == "arr":
+        return [len(v[1])] + [x for e in v[1] for x in tree_ref(s[2], e)]
+    return [x for f, e in zip(s[2], v[1]) for x in tree_ref(f, e)]
+
+
+def wf(s, v, lens, off, last):
+    """the documented conditions under which the placeholder encoding is unambiguous"""
+    k = s[0]
+    if k == "leaf":
+        return True
+    if k in ("prog", "sysv"):
+        return True
+    if k == "opt":
+        if v[1] is None:
+            return True
+        ms = metas_ref(s[1], v[1])
+        return wf(s[1], v[1], lens, off, last) and len(ms) > 0 and ms[0][0] != PROG
+    if k == "box":
+        return wf(s[1], v, lens, off, last)
+    if k == "vec":
+        return len(v[1]) == lens[off] and all(wf(s[1], x, lens, off + 1, False) for x in v[1])
+    if k == "arr":
+        return len(v[1]) == s[1] and all(wf(s[2], x, lens, off, False) for x in v[1])
+    if k == "rest":
+        return last and all(wf(s[1], x, lens, off, False) and len(metas_ref(s[1], x)) > 0 for x in v[1])
+    o = off
+    for i, (f, x) in enumerate(zip(s[2], v[1])):
+        if not wf(f, x, lens, o, last and i == len(s[2]) - 1):
+            return False
+        o += nvec(f)
+    return True
+
+
+def keys_valid(s, v):
+    k = s[0]
+    if k == "leaf":
+        return True
+    if k in ("prog", "sysv"):
+        return v[1] is None or v[1] == s[1]
+    if k == "opt":
+        return v[1] is None or keys_valid(s[1], v[1])
+    if k == "box":
+        return keys_valid(s[1], v)
+    if k in ("vec", "rest"):
+        return all(keys_valid(s[1], x) for x in v[1])
+    if k == "arr":
+        return all(keys_valid(s[2], x) for x in v[1])
+    return all(keys_valid(f, x) for f, x in zip(s[2], v[1]))
+
+
+class _Rd:
+    def __init__(self, o):
+        self.o = o
+        self.i = 0
+
+    def next(self):
+        v = self.o[self.i]
+        self.i += 1
+        return v
+
+    def take(self, n):
+        if n < 0 or self.i + n > len(self.o):
+            raise IndexError
+        v = self.o[self.i:self.i + n]
+        self.i += n
+        return v
+
+    def tag(self):
+        t = self.next()
+        return (t, self.next()) if t == 1 else (t, None)
+
+    def metas(self):
+        n = self.next()
+        return [tuple(self.take(3)) for _ in range(n)]
+
+    def tree(self, s):
+        k = s[0]
+        if k in ("leaf", "prog", "sysv"):
+            return self.take(3)
+        if k == "opt":
+            t = self.next()
+            return [0] if t == 0 else [1] + self.tree(s[1])
+        if k == "box":
+            return self.tree(s[1])
+        if k in ("vec", "rest", "arr"):
+            n = self.next()
+            out = [n]
+            for _ in range(n):
+                out += self.tree(s[1] if k != "arr" else s[2])
+            return out
+        out = []
+        for f in s[2]:
+            out += self.tree(f)
+        return out
+
+
+def parse_obs(s, obs):
+    r = _Rd(obs)
+    o = {"metas": r.metas()}
+    o["decode"] = r.tag()
+    if o["decode"][0] == 0:
+        o["remaining"] = r.next()
+        o["tree"] = r.tree(s)
+        o["validate"] = r.tag()
+    o["dispatch"] = r.tag()
+    o["reached"] = r.next()
+    if o["reached"]:
+        o["same"] = r.next()
+        o["cpi_built"] = r.next()
+        o["declared_len"] = r.next()
+        o["contains_option"] = r.next()
+        if o["cpi_built"]:
+            o["cpi"] = r.tag()
+            if o["cpi"][0] == 0:
+                o["cpi_program"] = r.next()
+                o["cpi_metas"] = r.metas()
+                n = r.next()
+                o["cpi_infos"] = r.take(n)
+                o["cpi_data_same"] = r.next()
+    if r.i < len(obs) and obs[r.i] == ARGS_MARK:
+        r.next()
+        n = r.next()
+        o["data"] = r.take(n)
+        n = r.next()
+        o["echo"] = None if n < 0 else r.take(n)
+    return o
+
+
+def project_impl(obs):
+    """the part of the observation the Coq model speaks about (arguments are judged by the predicate only)"""
+    if obs is None:
+        return None
+    if ARGS_MARK in obs:
+        return obs[:obs.index(ARGS_MARK)]
+    return obs
+
+
+def _m(ms):
+    return ", ".join("%s%s%s" % (k, "s" if sg else "", "w" if wr else "") for k, sg, wr in ms)
+
+
+def predicate(c, obs):
+    if obs is None or (obs and obs[0] == "UNPARSEABLE"):
+        return "no observation from the implementation"
+    if obs and obs[0] == -9:
+        return "the program did not terminate on the client's own account list (killed by the time / memory limit)"
+    if obs and obs[0] < 0:
+        return "harness family out of sync with the case generator (%s)" % obs[:1]
+    d = decode_case(c)
+    s, v, lens = d["shape"], d["val"], d["lens"]
+    kind = d["sidx"] % 6
+    try:
+        o = parse_obs(s, obs)
+    except IndexError:
+        return "truncated observation"
+    # arguments: what the client serialised is discriminant ++ borsh(args), and the program decodes the same args
+    want_data = [d["sidx"]] + list(lens) + borsh_extra(kind, d["extra"])
+    if o.get("data") != want_data:
+        return "client instruction data %s, expected discriminant ++ borsh(args) = %s" % (o.get("data"), want_data)
+    if o["reached"] and o.get("echo") != borsh_extra(kind, d["extra"]):
+        return "the program decoded different arguments than the client encoded (%s)" % (o.get("echo"),)
+    if not (wf(s, v, lens, 0, True) and keys_valid(s, v)):
+        return None                      # documented placeholder ambiguity / deliberately invalid addresses
+    ref = metas_ref(s, v)
+    if [m[0] for m in o["metas"]] != [m[0] for m in ref]:
+        return "client metas carry keys [%s], the account set lists [%s]" % (_m(o["metas"]), _m(ref))
+    if o["decode"][0] != 0:
+        return "the program could not decode the client's own account list (%s)" % (o["decode"],)
+    if o["remaining"] != 0:
+        return "decode consumed %d accounts fewer than the client sent" % o["remaining"]
+    exp_tree = tree_ref(s, v)
+    # compare structure and keys (flags are the client's)
+    got_tree = list(o["tree"])
+    if _strip_flags(s, got_tree) != _strip_flags(s, exp_tree):
+        return "decoded account set differs from what the client passed (order / count / presence)"
+    if o["validate"][0] != 0:
+        return ("validation of the client's own metas fails with %s: flags [%s] are not sufficient (required [%s])"
+                % (o["validate"][1], _m(o["metas"]), _m(ref)))
+    if o["dispatch"][0] != 0 or not o["reached"]:
+        return "the program's entry path rejected the client instruction (%s)" % (o["dispatch"],)
+    if not o["same"]:
+        return "entry path decoded a different account set than decode_accounts"
+    if o["cpi_built"]:
+        n = len(ref)
+        static = o["declared_len"] != 100
+        if o["cpi"][0] != 0:
+            if n > 64 and o["cpi"][0] == 2:
+                return None              # more accounts than the 64-entry CPI arrays: a panic, by design
+            return "a CPI built from the decoded account set failed (%s) although the client instruction is accepted" % (o["cpi"],)
+        if [m[0] for m in o["cpi_metas"]] != [m[0] for m in o["metas"]] or list(o["cpi_infos"]) != [m[0] for m in o["metas"]]:
+            return "CPI keys [%s] / infos %s differ from the client metas [%s]" % (_m(o["cpi_metas"]), o["cpi_infos"], _m(o["metas"]))
+        if o["cpi_metas"] != o["metas"]:
+            return "CPI flags [%s] differ from the client flags [%s]" % (_m(o["cpi_metas"]), _m(o["metas"]))
+        for got, need in zip(o["cpi_metas"], ref):
+            if got[1] > need[1] or got[2] > need[2]:
+                return "CPI asks for a privilege the account set does not require: %s vs required %s" % (got, need)
+        if static and len(o["cpi_metas"]) != o["declared_len"]:
+            return "CPI wrote %d accounts, declared %d" % (len(o["cpi_metas"]), o["declared_len"])
+        if not o["cpi_data_same"] or o["cpi_program"] != PROG:
+            return "CPI data / program differ from the client instruction"
+    return None
+
+
+def _strip_flags(s, t):
+    """tree with the flag bits removed (keys, presence, lengths)"""
+    r = _Rd(t)
+    out = []
+
+    def go(s):
+        k = s[0]
+        if k in ("leaf", "prog", "sysv"):
+            out.append(r.take(3)[0])
+        elif k == "opt":
+            t = r.next()
+            out.append(t)
+            if t:
+                go(s[1])
+        elif k == "box":
+            go(s[1])
+        elif k in ("vec", "rest", "arr"):
+            n = r.next()
+            out.append(n)
+            for _ in range(n):
+                go(s[1] if k != "arr" else s[2])
+        else:
+            for f in s[2]:
+                go(f)
+    go(s)
+    return out
+
+
+RULE = ("%d account-set shapes (plain / Signer / Mut / both orders / MaybeSigner<false> / MaybeMut<false> layers, Program, "
+        "Sysvar, Option, Vec with decode length, arrays 0..63, Box, Rest, nested structs, two levels of nesting) each with its "
+        "own derived instruction in one InstructionSet; per shape well-formed client values (all present/absent choices, "
+        "lengths 0..3, 64/65 for the CPI array bound) and 'wild' values (program-id keys, wrong lengths, overridden "
+        "Program/Sysvar addresses) x six borsh argument types. non-trivial = a well-formed value with valid addresses "
+        "(all three views are judged)" % len(FAMILY))
+TRUSTED = [
+    "Coq 8.16.1 kernel", "extraction (ExtrOcamlBasic only) + runner/driver.ml",
+    "harness/src/bin/vh_c14.rs generated from lib/props/c14.py by tools/gen_c14_harness.py (fixed family of derived "
+    "AccountSet / InstructionArgs / InstructionSet types, native AccountInfo builder, CPI hook of star_frame::verif_hooks)",
+    "tools/gen_constants.py (error codes)",
+]
+ASSUMPTIONS = [
+    "keys are abstract integers in the model; the harness maps ids to 32-byte keys ([id; 32], the two sysvar ids)",
+    "runtime accounts carry exactly the signer / writable bits of the client metas (no merging of duplicate keys)",
+    "single accounts are AccountInfo under MaybeSigner / MaybeMut layers, Program<T>, Sysvar<T>; owner / discriminant "
+    "checks of Account<T> are C08, other modifiers C09",
+    "the derive templates (AccountSet, InstructionArgs, InstructionSet) are exercised on the fixed family of the harness; "
+    "the model mirrors the templates, rustc's macro expansion is not modelled",
+    "instruction arguments (borsh) are judged on the implementation only (client bytes vs an independent encoder, and the "
+    "arguments the program's process() receives); they are not part of the Coq model",
+    "sets whose AccountLen is 64..99 or above 100 have no CPI (HandleCpiArray is not implemented: compile error); a "
+    "dynamic CPI with more than 64 accounts panics on an indexed write (modelled as Panic)",
+]
+
+
+def _lens_for(rng, s, hi=3):
+    return [rng.range(0, hi) for _ in range(nvec(s))]
+
+
+def gen_cases(rng, tier):
+    cases = []
+    n = 0
+
+    def add(sidx, lens, val):
+        nonlocal n
+        ex = gen_extra(rng, sidx % 6)
+        cases.append(("g%d" % n, make_case(sidx, lens, val, ex)))
+        n += 1
+
+    per_wf, per_wild = (12, 6) if tier == "quick" else (200, 100)
+    for sidx in range(len(FAMILY)):
+        s = top(sidx)
+        big = declared_len(s) >= 60 and nvec(s) == 0
+        for k in range(2 if big else per_wf):
+            lens = _lens_for(rng, s)
+            add(sidx, lens, gen_value(rng, s, lens, [0], "wf"))
+        for k in range(1 if big else per_wild):
+            lens = _lens_for(rng, s)
+            add(sidx, lens, gen_value(rng, s, lens, [0], "wild"))
+    # the bound of the dynamic CPI arrays
+    for ln in (63, 64, 65):
+        s = top(9)
+        add(9, [ln], gen_value(rng, s, [ln], [0], "wf"))
+    return cases
+
+
+def describe(c):
+    d = decode_case(c)
+    return {"shape_index": d["sidx"], "shape": show(d["shape"]), "vec_lengths": d["lens"], "client_value": _pv(d["val"]),
+            "extra_args": d["extra"], "well_formed": wf(d["shape"], d["val"], d["lens"], 0, True),
+            "addresses_valid": keys_valid(d["shape"], d["val"])}
+
+
+def _pv(v):
+    if v[0] == "k":
+        return v[1]
+    if v[0] == "ok":
+        return "default" if v[1] is None else "addr %s" % v[1]
+    if v[0] == "o":
+        return None if v[1] is None else {"some": _pv(v[1])}
+    return [_pv(x) for x in v[1]]
+
+
+def nontrivial(c, obs):
+    d = decode_case(c)
+    return bool(obs) and obs[0] != "UNPARSEABLE" and obs[0] >= 0 and wf(d["shape"], d["val"], d["lens"], 0, True) \
+        and keys_valid(d["shape"], d["val"])
+
+
+def distribution(cases, impl):
+    from collections import Counter
+    a = Counter()
+    b = Counter()
+    for cid, c in cases:
+        d = decode_case(c)
+        w = wf(d["shape"], d["val"], d["lens"], 0, True) and keys_valid(d["shape"], d["val"])
+        a["well-formed" if w else "ambiguous-or-invalid"] += 1
+        try:
+            o = parse_obs(d["shape"], impl.get(cid) or [])
+            b["decode %s" % ("ok" if o["decode"][0] == 0 else o["decode"][1])] += 1
+            b["entry %s" % ("ok" if o["dispatch"][0] == 0 else o["dispatch"][1])] += 1
+            if o.get("cpi_built"):
+                b["cpi %s" % {0: "ok", 1: "err %s" % o["cpi"][1], 2: "panic"}[o["cpi"][0]]] += 1
+            a["metas:%d" % min(len(o["metas"]), 10)] += 1
+        except (IndexError, KeyError, TypeError):
+            b["unparsed"] += 1
+    return {"values": dict(a), "outcomes": dict(b)}
+
+
+def matches_known(entry, c, obs):
+    return False
